@@ -1,6 +1,6 @@
 (* C17 — property theorems only (each closed by `exact <lemma>`, followed by Print Assumptions). *)
 From Coq Require Import List NArith Bool.
-From MW Require Import C16.Model C16.Proofs C17.Proofs.
+From MW Require Import C16.Model C16.Proofs C17.Proofs C17.ProofsOrder C17.ProofsCount.
 Import ListNotations.
 Open Scope N_scope.
 
@@ -54,14 +54,48 @@ Theorem C17_wait_undone_blocks : forall s c i ser j,
 Proof. exact wait_undone_blocks. Qed.
 Print Assumptions C17_wait_undone_blocks.
 
-(* NOT PROVED in Coq (covered by the differential run and the monitors only); full statements:
-   C17_min_first : forall h c chs j, is_idle c (run h init) = true ->
-       In (ODeliver c chs j) (snd (step (run h init) (StartPull c chs))) ->
-       forall k q p x, In (k, q) (s_queues (run h init)) -> (chs = [] \/ mem k chs = true) -> In (p, x) q ->
-       is_done (s_jobs (run h init)) x = false -> key_lt (p, x) (j_prio j, j_serial j) = false.
-     (needs the additional invariant "every channel queue is sorted by (prio, serial)".)
-   C17_wait_released_iff_done, liveness half : a connection in BWait ser in a reachable state has the job
-       unfinished or EvDone ser pending in s_hub. (needs a hub invariant.)
-   C17_counters : forall h ch, n_error + n_timeout + n_killed + n_success of cnt_get (s_cnt (run h init)) ch
-       = number of done jobs of channel ch in s_jobs (run h init).   (holds for the model with
-       /verif/fixes/C17-counters.diff; false for the current code: error="" is counted nowhere.) *)
+(* Priority/FIFO order.  For every history h without Drop and every pull: the job StartPull hands over at once
+   is the minimum, in the order (priority, serial) of jobs.py:45-52 (serial = arrival order), among ALL unfinished
+   jobs queued on a requested channel (on any channel when none was named): no such job (p, x) is smaller.
+   `q_get (s_queues s) k = Some q` is the dict lookup channel2q[k].  Rests on: every channel queue is sorted (the
+   heap-as-sorted-list contract of Model.v, proved as invariant QS for every op incl. Drop), _preenall leaves an
+   unfinished job at every non-empty queue's head, heads = min of the heads. *)
+Theorem C17_min_first : forall h c chs j, nodrop h = true ->
+  let s := run h init in
+  In (ODeliver c chs j) (snd (step s (StartPull c chs))) ->
+  forall k q p x, q_get (s_queues s) k = Some q -> (chs = [] \/ mem k chs = true) -> In (p, x) q ->
+  is_done (s_jobs s) x = false -> key_lt (p, x) (j_prio j, j_serial j) = false.
+Proof. exact min_first. Qed.
+Print Assumptions C17_min_first.
+
+(* ... and a pull blocks only when every job queued on the requested channels is finished (stale heap entries) *)
+Theorem C17_pull_blocks_only_when_nothing_is_queued : forall h c chs,
+  let s := run h init in
+  is_idle c s = true -> In OBlocked (snd (step s (StartPull c chs))) ->
+  forall k q p x, q_get (s_queues s) k = Some q -> (chs = [] \/ mem k chs = true) -> In (p, x) q ->
+  is_done (s_jobs s) x = true.
+Proof. exact blocks_only_when_empty. Qed.
+Print Assumptions C17_pull_blocks_only_when_nothing_is_queued.
+
+(* Counters.  For EVERY history (Drop, Watchdog, Advance included): for each channel, error + timeout + killed +
+   success of _channel2count equals the number of finished job OBJECTS of that channel among all objects created
+   since the server started (s_jobs never forgets an object, also when dropdead/waitjobs forget its id).  "Since
+   start" for an id that was killed and added again: the killed object and the new object are two objects, each
+   counted once when it finishes.  (True of the code since f2b0ce6: a falsy error counts as success.)  After a
+   restart the counters start from zero (restore_state: s_cnt = []) while finished jobs are kept; the same proof
+   gives  total + base = donecount  for base = the finished jobs restored (invariant CI, lemma run_ci). *)
+Theorem C17_counters : forall h ch,
+  let s := run h init in
+  total (cnt_get (s_cnt s) ch) = donecount (s_jobs s) ch.
+Proof. exact counters. Qed.
+Print Assumptions C17_counters.
+
+(* NOT PROVED in Coq (covered by the differential run and the monitors only); full statement:
+   C17_wait_released_iff_done, liveness half : forall h c ser, nodrop h = true ->
+       c_st (get_conn (s_conns (run h init)) c) = BWait ser ->
+       is_done (s_jobs (run h init)) ser = false \/ done_pending ser (s_hub (run h init)) = true.
+     (a connection blocked in a wait has its job unfinished or the wake-up EvDone queued in the hub; needs a hub
+      invariant: mark_finished queues EvDone exactly when has_waiter, and RunLoop consumes the whole hub.)
+   The safety half is proved: C17_wait_done_immediate, C17_wait_undone_blocks, and released_is_done / evdone_out
+   in Proofs.v (a client is released only through EvDone of its job, with the job record, or - dropped job whose
+   id is already gone - gets the KeyError response). *)
